@@ -125,6 +125,8 @@ def cases(tier, seed):
         for name in ('LMNN', 'NCA', 'MLKR'):
             out.append(('inits/%s/%s' % (name, dsn), ('inits', name, dsn, seed)))
     out.append(('priors/wide_spectrum', ('spectrum', seed)))
+    out.append(('priors/tiny_units', ('tiny', seed)))
+    out.append(('priors/huge_units', ('huge', seed)))
     return out
 
 
@@ -207,8 +209,15 @@ def run_case(spec):
         viol = [v for v in viol if not (v['clause'] == 'LtL_differs' and 'inside' in v['triggers'])]
         return dict(evals=evals, sigs=sigs, viol=viol, sample=sample)
 
-    if kind in ('priors', 'spectrum'):
-        if kind == 'spectrum':
+    if kind in ('tiny', 'huge'):
+        # well-conditioned data expressed in tiny / huge units (exact power-of-two scaling): cut-offs must be relative
+        ds = data.scaled(data.dataset('S3u'), 2.0 ** (-30 if kind == 'tiny' else 30))
+        dsn = ds.name
+        kind = 'spectrum_like'
+    if kind in ('priors', 'spectrum', 'spectrum_like'):
+        if kind == 'spectrum_like':
+            d = ds.d
+        elif kind == 'spectrum':
             ds0 = data.dataset('S5')
             sc = 10.0 ** np.array([-3, -1, 0, 1, 3])
             ds = data.scaled(ds0, 1.0)
@@ -219,6 +228,18 @@ def run_case(spec):
             dsn = spec[1]
             ds = data.dataset('R', spec[2]) if dsn == 'R' else data.dataset(dsn)
         d = ds.d
+        if kind == 'spectrum_like':
+            # end to end as well: ITML with bounds the prior already satisfies must return the inverse covariance
+            expc = np.linalg.inv(np.cov(np.unique(np.vstack(ds.pairs), axis=0), rowvar=False))
+            try:
+                e1 = zoo.make('ITML', ds, prior='covariance').fit(ds.pairs, ds.ypairs, bounds=np.array([1e30, 1e-30]))
+                evals += 1
+                if np.abs(e1.get_mahalanobis_matrix() - expc).max() > 1e-6 * np.abs(expc).max():
+                    viol.append(V('ITML.fit', 'prior_not_returned', "prior='covariance' on %s: the returned matrix differs from the inverse covariance"
+                                  % dsn, ['covariance', dsn]))
+            except Exception as e:
+                viol.append(V('ITML.fit', 'covariance_prior_rejected', "prior='covariance' on well-conditioned data in %s raised %s: %s"
+                              % (dsn, type(e).__name__, str(e)[:100]), ['covariance', dsn]))
         I = _util._initialize_metric_mahalanobis
         for inp_name, inp in (('points', ds.X), ('pairs(repeated points)', ds.pairs)):
             Xd = np.unique(np.vstack(inp), axis=0) if inp.ndim == 3 else inp
